@@ -81,6 +81,8 @@ def _payload_dict(fn: ast.AST, arg: ast.AST) -> Optional[ast.Dict]:
         all_defs = astq.assignments_to(fn, arg.id)
         if len(defs) == 1 and len(all_defs) == 1:
             return defs[0].value
+        if len(all_defs) == 1 and isinstance(all_defs[0], ast.Assign) and isinstance(all_defs[0].value, ast.Call):
+            return _payload_dict(fn, all_defs[0].value)      # marker = dict.fromkeys(KEYS)
     return None
 
 
@@ -140,7 +142,20 @@ def check_reader(prog: Program, res: Result, cls_q: str) -> None:
         if ex not in live:
             res.count("C13-final")
             continue
-        w = cfg.must_pass([cfg.entry], [ex], sent_nodes)
+        def _cannot_raise(a_, b_, labels):
+            """the exceptional edge of a statement that only builds a constant (the marker dict) is not a way out"""
+            if "exc" not in labels:
+                return False
+            st_ = cfg.nodes[a_].ast
+            if not (isinstance(st_, ast.Assign) and len(st_.targets) == 1 and isinstance(st_.targets[0], ast.Name)):
+                return False
+            for x_ in ast.walk(st_.value):
+                if isinstance(x_, ast.Call) and norm(x_.func) not in ("dict.fromkeys", "dict"):
+                    return False
+                if isinstance(x_, (ast.Subscript, ast.Attribute, ast.BinOp, ast.Await, ast.Yield)) and not (isinstance(x_, ast.Attribute) and norm(x_) == "dict.fromkeys"):
+                    return False
+            return True
+        w = cfg.must_pass([cfg.entry], [ex], sent_nodes, drop_edge=_cannot_raise)
         res.ob("C13-final", w is None, fi.qualname, f"every path to the {label} puts the end-of-stream marker",
                f"a path reaches the {label} without putting the end-of-stream marker: {cfg.path_str(w) if w else ''}",
                fi.where, derivation={"path": cfg.path_str(w)} if w else None,
